@@ -17,7 +17,9 @@ def check(report, tier, only=None):
            ('write_request', lambda rep: C07_e2.ob_write(rep, 'request')), ('write_response', lambda rep: C07_e2.ob_write(rep, 'response')),
            ('read_request', lambda rep: C07_e2.ob_read(rep, 'request')), ('read_response', lambda rep: C07_e2.ob_read(rep, 'response')), ('raw_header', C07_e2.ob_serde_fields),
            # the built-in middleware between the wire and the handler / caller only reads the request (it passes on exactly what was sent)
-           ('inbound_timeout_passes_request', lambda rep: C11.ob_selection(rep, 'inbound')), ('outbound_timeout_passes_request', lambda rep: C11.ob_selection(rep, 'outbound'))]
+           ('inbound_timeout_passes_request', lambda rep: C11.ob_selection(rep, 'inbound')), ('outbound_timeout_passes_request', lambda rep: C11.ob_selection(rep, 'outbound')),
+           # the typed client hands the transport the caller's request (route, headers, extensions), only the body encoded
+           ('typed_client', lambda rep: C11.ob_typed_client_forwards_request(rep, PROP))]
     for n, f in obs:
         if only and not any(s in n for s in only):
             continue
